@@ -46,9 +46,12 @@ type Tap struct {
 	orig    map[string]*appctlpb.TrafficPattern
 	mtu     map[string]int
 	attack  map[string]bool // flows / conn addrs that belong to attackers (not real endpoints)
-	replied map[string]int  // bytes/datagrams sent by the server towards an attacker flow
-	kinds   map[string]int  // segment kinds seen (reach)
+	hostile map[string]bool
+	hostileOpened int
+	replied map[string]int // bytes/datagrams sent by the server towards an attacker flow
+	kinds   map[string]int // segment kinds seen (reach)
 	geo     []spec.SegGeo
+	record  bool
 	wire    map[string][]byte
 }
 
@@ -75,24 +78,24 @@ type txRec struct {
 }
 
 type sessTap struct {
-	id        uint32
-	flow      string
-	client    int
-	udp       bool
-	tx        [2]map[uint32]*txRec // first transmissions of open/data per dir
-	nextNew   [2]uint32
-	delivered [2]map[uint32]bool
-	contig    [2]uint32 // number of in-order seqs delivered (0..contig-1 all delivered)
-	maxAckBy  [2]uint32 // highest unAckSeq emitted by the receiver of dir
-	clientLE  bool      // client sent a low-entropy data segment on this session (delivered or not: emitted)
+	id                uint32
+	flow              string
+	client            int
+	udp               bool
+	tx                [2]map[uint32]*txRec // first transmissions of open/data per dir
+	nextNew           [2]uint32
+	delivered         [2]map[uint32]bool
+	contig            [2]uint32 // number of in-order seqs delivered (0..contig-1 all delivered)
+	maxAckBy          [2]uint32 // highest unAckSeq emitted by the receiver of dir
+	clientLE          bool      // client sent a low-entropy data segment on this session (delivered or not: emitted)
 	clientLEDelivered bool
-	head      []byte // first bytes of the in-order c2s stream (to find the SOCKS request)
-	headNext  uint32
-	key       string // harness session key once known
-	closeGap  [2]bool // a close request from dir's sender was delivered while earlier data was missing
-	closeSeen [2]bool
-	dropped   [2]int
-	hsDone    bool // the first server data segment (the SOCKS reply) reached the client
+	head              []byte // first bytes of the in-order c2s stream (to find the SOCKS request)
+	headNext          uint32
+	key               string  // harness session key once known
+	closeGap          [2]bool // a close request from dir's sender was delivered while earlier data was missing
+	closeSeen         [2]bool
+	dropped           [2]int
+	hsDone            bool // the first server data segment (the SOCKS reply) reached the client
 }
 
 func newTap(w *World) *Tap {
@@ -100,7 +103,7 @@ func newTap(w *World) *Tap {
 	t := &Tap{w: w, keys: map[string][32]byte{}, peeked: map[int]*refproto.Segment{}, streams: map[int]*streamTap{},
 		sess: map[string]*sessTap{}, flowSeen: map[string]int{}, lastKey: map[string][32]byte{}, lastUser: map[string]string{},
 		eff: map[string]*appctlpb.TrafficPattern{}, orig: map[string]*appctlpb.TrafficPattern{}, mtu: map[string]int{},
-		attack: map[string]bool{}, replied: map[string]int{}, kinds: map[string]int{}, wire: map[string][]byte{}}
+		attack: map[string]bool{}, replied: map[string]int{}, kinds: map[string]int{}, wire: map[string][]byte{}, record: w.Spec.Dump || w.Spec.Attack != nil}
 	for _, u := range w.Spec.Server.Users {
 		t.creds = append(t.creds, refproto.Cred{User: u.Name, Password: u.Password})
 	}
@@ -247,7 +250,9 @@ func isSeqType(typ uint8) bool {
 	return false
 }
 
-func isDataAckType(typ uint8) bool { return typ >= refproto.TypeDataC2S && typ <= refproto.TypeDataS2CLE }
+func isDataAckType(typ uint8) bool {
+	return typ >= refproto.TypeDataC2S && typ <= refproto.TypeDataS2CLE
+}
 
 func kindName(typ uint8) string {
 	switch typ {
@@ -298,6 +303,9 @@ func (t *Tap) StreamBytes(c *simnet.ConnInfo, dir simnet.Dir, off int64, b []byt
 	attacker := t.isAttacker(c.ClientAddr)
 	if attacker {
 		if dir == simnet.S2C {
+			if t.replied[c.ClientAddr] == 0 && t.isHostileAddr(c.ClientAddr) {
+				t.hostileOpened++
+			}
 			t.replied[c.ClientAddr] += len(b)
 		}
 		t.mu.Unlock()
@@ -325,7 +333,7 @@ func (t *Tap) StreamBytes(c *simnet.ConnInfo, dir simnet.Dir, off int64, b []byt
 	}
 	segs, err := st.dec[dir].Feed(b, t.unixNow())
 	var todo []func()
-	if t.w.Spec.Dump {
+	if t.record {
 		k := fmt.Sprintf("tcp#%d/%d", c.ID, dir)
 		if len(t.wire[k]) < 1<<20 {
 			t.wire[k] = append(t.wire[k], b...)
@@ -334,7 +342,7 @@ func (t *Tap) StreamBytes(c *simnet.ConnInfo, dir simnet.Dir, off int64, b []byt
 	for _, s := range segs {
 		t.segs++
 		t.kinds[kindName(s.Meta.Type)+"/tcp"]++
-		if t.w.Spec.Dump {
+		if t.record {
 			t.geo = append(t.geo, geoOf(s, fmt.Sprintf("tcp#%d", c.ID), st.client, c.ID, int(dir), -1))
 		}
 		todo = append(todo, t.onStreamSegment(st, dir, s)...)
@@ -537,6 +545,11 @@ func (t *Tap) DatagramSent(d *simnet.Datagram) {
 	t.mu.Lock()
 	if d.Dir == simnet.S2C && t.isAttacker(d.Dst) {
 		t.replied[d.Dst]++
+		if t.isHostileAddr(d.Dst) {
+			if hs, _ := t.decodeWithAllCreds(d.Data); hs != nil && hs.Meta.Type == refproto.TypeOpenResp {
+				t.hostileOpened++
+			}
+		}
 	}
 	if t.isAttacker(d.Src) || (d.Dir == simnet.S2C && t.isAttacker(d.Dst)) {
 		t.mu.Unlock()
@@ -569,7 +582,7 @@ func (t *Tap) DatagramSent(d *simnet.Datagram) {
 			w.Net.Logf("  seg #%d %s sess=%d seq=%d unack=%d win=%d frag=%d pre=%d pay=%d suf=%d fate=%s", d.ID, kindName(s.Meta.Type), s.Meta.SessionID, s.Meta.Seq, s.Meta.UnAckSeq, s.Meta.Window, s.Meta.Fragment, s.Meta.PrefixLen, len(s.Payload), s.Meta.SuffixLen, d.Fate.Why)
 		}
 		ci := t.clientOfAddr(d.Flow)
-		if w.Spec.Dump {
+		if t.record {
 			t.geo = append(t.geo, geoOf(s, d.Flow, ci, -1, int(d.Dir), d.Index))
 			if len(t.wire) < 5000 {
 				t.wire[fmt.Sprintf("%s/%d/%d", d.Flow, d.Dir, d.Index)] = d.Data
@@ -790,4 +803,126 @@ func geoOf(s *refproto.Segment, scope string, client, conn, dir, index int) spec
 		g.Spans[i] = [2]int64{x.Off, x.End}
 	}
 	return g
+}
+
+// MarkHostile declares an address prefix that belongs to an attacker holding a
+// valid credential: its traffic is exempt from the wire invariants and the
+// server may answer it.
+func (t *Tap) MarkHostile(ipPrefix string) {
+	t.mu.Lock()
+	t.attack[ipPrefix] = true
+	if t.hostile == nil {
+		t.hostile = map[string]bool{}
+	}
+	t.hostile[ipPrefix] = true
+	t.mu.Unlock()
+}
+
+func (t *Tap) isAttackerLocked(addr string) bool {
+	t.mu.Lock()
+	defer t.mu.Unlock()
+	for p := range t.attack {
+		if strings.HasPrefix(addr, p) && !t.hostile[p] {
+			return true
+		}
+	}
+	return false
+}
+
+// streamOfClient returns the recorded client-to-server bytes and segment
+// geometry of the first TCP connection of a genuine client.
+func (t *Tap) streamOfClient(ci int) ([]byte, []spec.SegGeo) {
+	t.mu.Lock()
+	defer t.mu.Unlock()
+	conn := -1
+	for id, st := range t.streams {
+		if st.client == ci && (conn == -1 || id < conn) {
+			conn = id
+		}
+	}
+	if conn < 0 || len(t.streams[conn].writes[1]) == 0 {
+		// "traffic the server has already accepted": wait until the server has answered
+		return nil, nil
+	}
+	var geo []spec.SegGeo
+	for _, g := range t.geo {
+		if g.Conn == conn && g.Dir == 0 && g.Index == -1 {
+			geo = append(geo, g)
+		}
+	}
+	b := t.wire[fmt.Sprintf("tcp#%d/0", conn)]
+	return append([]byte(nil), b...), geo
+}
+
+// datagramsOfClient returns the recorded client-to-server datagrams of a genuine client's flow, in order.
+func (t *Tap) datagramsOfClient(ci int) [][]byte {
+	t.mu.Lock()
+	defer t.mu.Unlock()
+	var out [][]byte
+	answered := false
+	for _, ss := range t.sess {
+		if ss.client == ci && ss.udp && ss.nextNew[1] > 0 {
+			answered = true
+		}
+	}
+	if !answered {
+		// "traffic the server has already accepted": wait until the server has answered
+		return nil
+	}
+	for _, g := range t.geo {
+		if g.Client == ci && g.Dir == 0 && g.Index >= 0 {
+			if b, ok := t.wire[fmt.Sprintf("%s/%d/%d", g.Scope, g.Dir, g.Index)]; ok {
+				out = append(out, b)
+			}
+		}
+	}
+	return out
+}
+
+// victimSessionIDs lists session ids of genuine sessions seen so far.
+func (t *Tap) victimSessionIDs(transport string) []uint32 {
+	t.mu.Lock()
+	defer t.mu.Unlock()
+	var ids []uint32
+	for _, ss := range t.sess {
+		// only sessions the server has already answered: an id "owned by another
+		// user" is one that exists at the server, not one still in flight
+		if ss.client >= 0 && ss.udp == (transport == "udp") && ss.nextNew[1] > 0 {
+			ids = append(ids, ss.id)
+		}
+	}
+	// deterministic order
+	for i := 1; i < len(ids); i++ {
+		for j := i; j > 0 && ids[j] < ids[j-1]; j-- {
+			ids[j], ids[j-1] = ids[j-1], ids[j]
+		}
+	}
+	return ids
+}
+
+func (t *Tap) isHostileAddr(addr string) bool {
+	for p := range t.hostile {
+		if strings.HasPrefix(addr, p) {
+			return true
+		}
+	}
+	return false
+}
+
+func (t *Tap) decodeWithAllCreds(b []byte) (*refproto.Segment, string) {
+	now := t.unixNow()
+	for _, c := range t.creds {
+		for _, slot := range refproto.CandidateSlots(now) {
+			if s, err := refproto.DecodeDatagramWithKey(b, t.keyFor(c, slot)); err == nil {
+				return s, c.User
+			}
+		}
+	}
+	return nil, ""
+}
+
+func (t *Tap) hostileSessionsOpened() int {
+	t.mu.Lock()
+	defer t.mu.Unlock()
+	return t.hostileOpened
 }
